@@ -315,7 +315,8 @@ pub fn diff_audit(w: &mut World, ctx: &PostCtx) -> Result<(), Violation> {
     let mut touch: BTreeSet<&Vec<Vec<u16>>> = ctx.out.touch_paths.iter().collect();
     // an open file with pending changes may still be described on disk by a stale entry (e.g. pointing at a chain it
     // already gave back): what that entry claims cannot be held against other operations
-    let flux_paths: Vec<Vec<Vec<u16>>> = ctx.flux.iter().map(|n| units(&w.model.path_of(*n))).collect();
+    let mut flux_paths: Vec<Vec<Vec<u16>>> = ctx.flux.iter().map(|n| units(&w.model.path_of(*n))).collect();
+    flux_paths.extend(ctx.out.flux_paths.iter().cloned());
     for fp in &flux_paths {
         touch.insert(fp);
     }
@@ -484,7 +485,8 @@ pub fn write_audit(w: &mut World, ctx: &PostCtx, writes: &[WriteRec]) -> Result<
     let p = &*ctx.before;
     let g = &p.geo;
     let mut touch: BTreeSet<&Vec<Vec<u16>>> = ctx.out.touch_paths.iter().collect();
-    let flux_paths: Vec<Vec<Vec<u16>>> = ctx.flux.iter().map(|n| units(&w.model.path_of(*n))).collect();
+    let mut flux_paths: Vec<Vec<Vec<u16>>> = ctx.flux.iter().map(|n| units(&w.model.path_of(*n))).collect();
+    flux_paths.extend(ctx.out.flux_paths.iter().cloned());
     for fp in &flux_paths {
         touch.insert(fp);
     }
@@ -603,7 +605,8 @@ pub fn post_step(w: &mut World, s: &mut Session, ctx: &PostCtx) -> Result<(), Vi
         fsck_check(w, &after, &ctx.flux)?;
     }
     if o.raw_tree {
-        raw_tree_check(w, &after, &ctx.flux, "C01")?;
+        let pr = if w.prop == "C02" || w.prop == "C04" { w.prop.clone() } else { "C01".to_string() };
+        raw_tree_check(w, &after, &ctx.flux, &pr)?;
     }
     if o.write_audit {
         write_audit(w, ctx, &writes)?;
